@@ -1,32 +1,51 @@
 (** C06 - objects round-trip through their encodings and are stored under their hash.
     Only statements, each closed by [exact] of a lemma from proofs/Codec*_proofs.v.
 
-    Conventions: [bytes = list N]; an encoder returns [None] when the Go code refuses
-    (error or panic, see the model files); a decoder consumes a prefix and returns the
-    bytes left in the reader.  [decode_X_g true] is the reader without
-    StrListDecoder.Read's tolerance for a stream that ends right after the length
-    prefix of the last cell; [decode_X = decode_X_g false] is the real reader. *)
+    Conventions.  [bytes = list N].  An encoder [encode_X : X -> option bytes] returns
+    [None] when the Go code refuses (error or panic, recorded in the model files).
+    A decoder [decode_X : bytes -> option (X * bytes)] consumes a prefix of its input
+    exactly like the Go reader and returns the bytes left in the reader.  No theorem
+    bounds the size of a value.
+
+    ROUND TRIP, for every well-formed value x (wf_X = what the Go type guarantees plus
+    the limits of the format):  encode_X x = Some b  and  decode_X (b ++ rest) = Some (x, rest)
+    for every rest - except Commit and packfile, whose readers run to EOF (rest = []).
+
+    RE-ENCODING (canonicity), decode_X b = Some (x, rest) -> encode_X x = Some b' with
+    b = b' ++ rest, holds for UintList, FloatList, Table, BlockIndex as they are.  It is
+    FALSE for the real readers of
+      - StrList / Block: StrListDecoder.Read accepts a stream that ends right after the
+        length prefix of the last cell and reads that cell as "" ;
+      - Commit: the 16-byte time field ignores byte 10 and accepts "+"/"-0000"/"+0060" ;
+      - TableProfile (any field order, explicit empty fields), the packfile header
+        (padding digits) and pkt-line (upper-case hex, unchecked last byte),
+    with the witnesses below.  For StrList / Block / Commit the statement is proved for the
+    readers restricted by [strict = true] (no EOF tolerance; time field must be one that
+    WriteTime produces), which are restrictions of the real readers ([_strict_real]). *)
 From W.lib Require Import Tree Bytes.
-From W.model Require Import CodecBase CodecStrList CodecPackfile.
-From W.proofs Require Import CodecBase_proofs CodecStrList_proofs CodecPackfile_proofs.
+From W.model Require Import CodecBase CodecStrList CodecPackfile CodecObjline CodecCommit
+     CodecTable CodecProfile CodecStore.
+From W.proofs Require Import CodecBase_proofs CodecStrList_proofs CodecPackfile_proofs
+     CodecObjline_proofs CodecCommit_proofs CodecTable_proofs CodecProfile_proofs
+     CodecStore_proofs CodecC06_proofs.
+From Coq Require Import ZArith.
 Local Open Scope N_scope.
 
-(** ** StrList *)
+(* ================================================================== *)
+(** ** StrList (u32 count, u16 cell lengths) *)
 Theorem C06_strlist_roundtrip : forall sl, wf_strlist sl ->
   exists b, encode_strlist sl = Some b /\
     forall strict rest, decode_strlist_g strict (b ++ rest) = Some (sl, rest).
 Proof. exact strlist_roundtrip. Qed.
 Print Assumptions C06_strlist_roundtrip.
 
-(** re-encoding reproduces the bytes read, for the strict reader (which is a
-    restriction of the real one and agrees with it whenever anything follows) *)
 Theorem C06_strlist_reencode : forall b sl rest,
   wf_bytes b -> decode_strlist_g true b = Some (sl, rest) ->
   exists b', encode_strlist sl = Some b' /\ b = b' ++ rest /\ wf_bytes rest /\ wf_strlist sl.
 Proof. exact strlist_reencode. Qed.
 Print Assumptions C06_strlist_reencode.
 
-(** ** Block *)
+(** ** Block (1..255 rows in practice; any number here) *)
 Theorem C06_block_roundtrip : forall rows, wf_block rows ->
   exists b, encode_block rows = Some b /\
     forall strict rest, decode_block_g strict (b ++ rest) = Some (rows, rest).
@@ -39,8 +58,8 @@ Theorem C06_block_reencode : forall b rows rest,
 Proof. exact block_reencode. Qed.
 Print Assumptions C06_block_reencode.
 
-(** the strict reader only removes behaviour: whatever it reads the real reader reads
-    too, and the two agree unless the input ends inside the last cell *)
+(** the strict reader only removes behaviour, and agrees with the real reader whenever
+    anything at all follows the block *)
 Theorem C06_block_strict_real : forall b r,
   decode_block_g true b = Some r -> decode_block b = Some r.
 Proof. exact block_strict_real. Qed.
@@ -51,36 +70,132 @@ Theorem C06_block_real_strict : forall b rows rest,
 Proof. exact block_real_strict. Qed.
 Print Assumptions C06_block_real_strict.
 
-(** the full statement [decode_block b = Some (rows, []) -> encode_block rows = Some b]
-    is FALSE for the real reader (10-byte witness) *)
+(** full statement [decode_block b = Some (rows, []) -> encode_block rows = Some b]: refuted *)
 Theorem C06_block_reencode_real_refuted :
   decode_block [0;0;0;1; 0;0;0;1; 0;5] = Some ([[[]]], []) /\
   encode_block [[[]]] = Some [0;0;0;1; 0;0;0;1; 0;0].
 Proof. exact block_noncanonical. Qed.
 Print Assumptions C06_block_reencode_real_refuted.
 
-(** ** UintList / FloatList (w = 4 / 8 bytes per element) *)
-Theorem C06_words_roundtrip : forall w l, (0 < w)%nat -> wf_words w l ->
-  exists b, encode_words w l = Some b /\ forall rest, decode_words w (b ++ rest) = Some (l, rest).
-Proof. exact words_roundtrip. Qed.
-Print Assumptions C06_words_roundtrip.
+(** ** UintList / FloatList (float64 = its 64-bit pattern) *)
+Theorem C06_uintlist_roundtrip : forall l, wf_uintlist l ->
+  exists b, encode_uintlist l = Some b /\ forall rest, decode_uintlist (b ++ rest) = Some (l, rest).
+Proof. exact uintlist_roundtrip. Qed.
+Print Assumptions C06_uintlist_roundtrip.
 
-Theorem C06_words_reencode : forall w b l rest,
-  wf_bytes b -> decode_words w b = Some (l, rest) ->
-  exists b', encode_words w l = Some b' /\ b = b' ++ rest /\ wf_bytes rest /\ wf_words w l.
-Proof. exact words_reencode. Qed.
-Print Assumptions C06_words_reencode.
+Theorem C06_uintlist_reencode : forall b l rest,
+  wf_bytes b -> decode_uintlist b = Some (l, rest) ->
+  exists b', encode_uintlist l = Some b' /\ b = b' ++ rest /\ wf_bytes rest /\ wf_uintlist l.
+Proof. exact uintlist_reencode. Qed.
+Print Assumptions C06_uintlist_reencode.
 
-(** ** over-limit cells are refused (StrListEncoder.Encode panics; nothing is returned) *)
-Theorem C06_reject_overlimit_strlist : forall sl,
-  Exists (fun s => max_str_len < len s) sl -> encode_strlist sl = None.
-Proof. exact strlist_reject_overlimit. Qed.
-Print Assumptions C06_reject_overlimit_strlist.
+Theorem C06_floatlist_roundtrip : forall l, wf_floatlist l ->
+  exists b, encode_floatlist l = Some b /\ forall rest, decode_floatlist (b ++ rest) = Some (l, rest).
+Proof. exact floatlist_roundtrip. Qed.
+Print Assumptions C06_floatlist_roundtrip.
 
-Theorem C06_reject_overlimit_block : forall rows,
-  Exists (fun row => Exists (fun s => max_str_len < len s) row) rows -> encode_block rows = None.
-Proof. exact block_reject_overlimit. Qed.
-Print Assumptions C06_reject_overlimit_block.
+Theorem C06_floatlist_reencode : forall b l rest,
+  wf_bytes b -> decode_floatlist b = Some (l, rest) ->
+  exists b', encode_floatlist l = Some b' /\ b = b' ++ rest /\ wf_bytes rest /\ wf_floatlist l.
+Proof. exact floatlist_reencode. Qed.
+Print Assumptions C06_floatlist_reencode.
+
+(* ================================================================== *)
+(** ** the 16-byte time field.  [wf_time]: the zero time (read back in UTC), or
+    -999999999 <= unix second <= 9999999999 with a zone of whole minutes, |zone| <= 24h59.
+    Outside that range EncodeTime produces more than 16 bytes (second >= 10^10 or
+    <= -10^9) or an hour field time.Parse rejects; the model has the real formatting. *)
+Theorem C06_time_roundtrip : forall t, wf_time t ->
+  length (encode_time t) = 16%nat /\ forall strict, decode_time_g strict (encode_time t) = Some t.
+Proof. exact time_roundtrip. Qed.
+Print Assumptions C06_time_roundtrip.
+
+(** ** Commit (0..n parents; ReadFrom reads parents to EOF, so nothing may follow) *)
+Theorem C06_commit_roundtrip : forall c, wf_commit c ->
+  exists b, encode_commit c = Some b /\ forall strict, decode_commit_g strict b = Some (c, []).
+Proof. exact commit_roundtrip. Qed.
+Print Assumptions C06_commit_roundtrip.
+
+Theorem C06_commit_reencode : forall b c rest,
+  wf_bytes b -> decode_commit_g true b = Some (c, rest) -> encode_commit c = Some b /\ rest = [].
+Proof. exact commit_reencode. Qed.
+Print Assumptions C06_commit_reencode.
+
+Theorem C06_commit_strict_real : forall b r,
+  decode_commit_g true b = Some r -> decode_commit b = Some r.
+Proof. exact commit_strict_real. Qed.
+Print Assumptions C06_commit_strict_real.
+
+(** full statement for the real commit reader: refuted (time field "+000000005x-0000") *)
+Theorem C06_commit_reencode_real_refuted :
+  let b := nc_commit_bytes [43;48;48;48;48;48;48;48;48;53;120;45;48;48;48;48] in
+  let c := mk_commit zeros16 [] [] (5%Z, 0%Z) [] [] in
+  decode_commit b = Some (c, []) /\
+  encode_commit c = Some (nc_commit_bytes [48;48;48;48;48;48;48;48;48;53;32;43;48;48;48;48]).
+Proof. exact commit_noncanonical. Qed.
+Print Assumptions C06_commit_reencode_real_refuted.
+
+(** ** Table (columns, pk, rows, ceil(rows/255) block sums and index sums) *)
+Theorem C06_table_roundtrip : forall t, wf_table t ->
+  exists b, encode_table t = Some b /\ forall rest, decode_table (b ++ rest) = Some (t, rest).
+Proof. exact table_roundtrip. Qed.
+Print Assumptions C06_table_roundtrip.
+
+(** the real table reader is canonical *)
+Theorem C06_table_reencode : forall b t rest,
+  wf_bytes b -> decode_table b = Some (t, rest) ->
+  exists b', encode_table t = Some b' /\ b = b' ++ rest /\ wf_table t.
+Proof. exact table_reencode. Qed.
+Print Assumptions C06_table_reencode.
+
+(** ** BlockIndex (count byte, offsets, 32-byte rows) - canonical *)
+Theorem C06_blockindex_roundtrip : forall x, wf_blockindex x ->
+  exists b, encode_blockindex x = Some b /\
+    forall rest, decode_blockindex (b ++ rest) = Some (x, rest).
+Proof. exact blockindex_roundtrip. Qed.
+Print Assumptions C06_blockindex_roundtrip.
+
+Theorem C06_blockindex_reencode : forall b x rest,
+  wf_bytes b -> decode_blockindex b = Some (x, rest) ->
+  exists b', encode_blockindex x = Some b' /\ b = b' ++ rest /\ wf_blockindex x.
+Proof. exact blockindex_reencode. Qed.
+Print Assumptions C06_blockindex_reencode.
+
+(** ** TableProfile (field framing) *)
+Theorem C06_profile_roundtrip : forall p, wf_profile p ->
+  exists b, encode_profile p = Some b /\ forall rest, decode_profile (b ++ rest) = Some (p, rest).
+Proof. exact profile_roundtrip. Qed.
+Print Assumptions C06_profile_roundtrip.
+
+(** re-encoding for the profile reader: refuted (an explicit naCount = 0 field) *)
+Theorem C06_profile_reencode_refuted :
+  let p := mk_profile 1 0 [empty_col] in
+  decode_profile (nc_profile_bytes [0;2; 0;0;0;0; 0;0]) = Some (p, []) /\
+  encode_profile p = Some (nc_profile_bytes [0;0]).
+Proof. exact profile_noncanonical. Qed.
+Print Assumptions C06_profile_reencode_refuted.
+
+(* ================================================================== *)
+(** ** pkt-line.  Round trip for strings of at most 65534 bytes.  WritePktLine has no
+    length guard: from 65535 bytes on it writes the first four hex digits of a longer
+    number (second theorem: any 65535 bytes go out under "1000" and read back as their first 4095).
+    WritePktLine / ReadPktLine have no caller outside their test file. *)
+Theorem C06_pktline_roundtrip : forall s, wf_pktline s ->
+  exists b, encode_pktline s = Some b /\ forall rest, decode_pktline (b ++ rest) = Some (s, rest).
+Proof. exact pktline_roundtrip. Qed.
+Print Assumptions C06_pktline_roundtrip.
+
+Theorem C06_pktline_overlimit_corrupts : forall s, len s = 65535 ->
+  exists b, encode_pktline s = Some b /\ firstn 4 b = [49; 48; 48; 48] /\
+    exists rest, decode_pktline b = Some (firstn (N.to_nat 4095) s, rest).
+Proof. exact pktline_overlimit_corrupts. Qed.
+Print Assumptions C06_pktline_overlimit_corrupts.
+
+(** ** packfile: "PACK", version, objects = header ++ bytes, read to EOF *)
+Theorem C06_packfile_roundtrip : forall l, wf_packfile l ->
+  exists b, encode_packfile l = Some b /\ decode_packfile b = Some ((pack_version, l), []).
+Proof. exact packfile_roundtrip. Qed.
+Print Assumptions C06_packfile_roundtrip.
 
 (** ** packfile object header: every length 0 <= u < 2^64, every type 1..7.
     [encode_len] is the shift/mask transliteration with bits = N.size u (bits.Len64). *)
@@ -94,16 +209,129 @@ Theorem C06_header_shiftmask_is_arith : forall ty u,
 Proof. exact encode_len_sm_ar. Qed.
 Print Assumptions C06_header_shiftmask_is_arith.
 
-(** the header decoder is not canonical (padding digits, bit 7 of the first byte ignored) *)
 Theorem C06_header_noncanonical :
   decode_len [176; 128; 0] = Some (3, 0, []) /\ decode_len [48; 0] = Some (3, 0, []) /\
   encode_len 3 0 = [176; 0].
 Proof. exact header_noncanonical. Qed.
 Print Assumptions C06_header_noncanonical.
 
-(** non-vacuity *)
-Example C06_nonvacuous_strlist :
-  wf_strlist [[65; 66]; []; [255; 0]] /\ wf_block [[[65]; []]; []] /\ wf_words 4 [0; 4294967295].
-Proof.
-  repeat split; repeat constructor; vm_compute; congruence.
-Qed.
+(* ================================================================== *)
+(** ** a cell / text field longer than 65535 bytes is refused, nothing is returned:
+    StrList cells (panic), hence blocks and table columns; objline strings (error),
+    hence commit author name / email / message and profile column names; profile top
+    values (error). *)
+Theorem C06_reject_overlimit :
+  (forall sl, Exists (fun s => max_str_len < len s) sl -> encode_strlist sl = None) /\
+  (forall rows, Exists (fun row => Exists (fun s => max_str_len < len s) row) rows ->
+                encode_block rows = None) /\
+  (forall t, Exists (fun s => max_str_len < len s) (t_columns t) -> encode_table t = None) /\
+  (forall c, commit_overlimit c -> encode_commit c = None) /\
+  (forall p, Exists (fun c => Exists val_overlimit c) (p_cols p) -> encode_profile p = None) /\
+  (forall s, 65535 < len s -> enc_string s = None).
+Proof. exact reject_overlimit_all. Qed.
+Print Assumptions C06_reject_overlimit.
+
+(* ================================================================== *)
+(** ** stored under the hash.  [H] = meow.Checksum(0, .), [compress]/[decompress] =
+    s2.EncodeBetter / s2.Decode: never computed, universally quantified. *)
+
+(** Every Save writes exactly one key and touches no other: blocks, block indices,
+    tables and commits under prefix ++ H content (and return H content); the table index
+    and the table profile under prefix ++ the sum supplied by the caller, i.e. the hash of
+    the TABLE they belong to - they are identified through their table, not by a hash of
+    their own bytes. *)
+Theorem C06_key_is_hash : forall (H compress : bytes -> bytes) s c,
+    (let '(s', sum) := save_block H compress s c in
+     sum = H c /\ sget (L_blk ++ H c) s' = Some (compress c) /\
+     forall k, k <> L_blk ++ H c -> sget k s' = sget k s) /\
+    (let '(s', sum) := save_blockindex H compress s c in
+     sum = H c /\ sget (L_blkidx ++ H c) s' = Some (compress c) /\
+     forall k, k <> L_blkidx ++ H c -> sget k s' = sget k s) /\
+    (let '(s', sum) := save_table H s c in
+     sum = H c /\ sget (L_tbl ++ H c) s' = Some c /\
+     forall k, k <> L_tbl ++ H c -> sget k s' = sget k s) /\
+    (let '(s', sum) := save_commit H s c in
+     sum = H c /\ sget (L_com ++ H c) s' = Some c /\
+     forall k, k <> L_com ++ H c -> sget k s' = sget k s) /\
+    (forall sum, let s' := save_tableindex s sum c in
+     sget (L_tblidx ++ sum) s' = Some c /\ forall k, k <> L_tblidx ++ sum -> sget k s' = sget k s) /\
+    (forall sum, let s' := save_tableprofile s sum c in
+     sget (L_tblsum ++ sum) s' = Some c /\ forall k, k <> L_tblsum ++ sum -> sget k s' = sget k s).
+Proof. exact save_key_is_hash. Qed.
+Print Assumptions C06_key_is_hash.
+
+(** identical content is stored once: saving it again changes nothing, keys stay unique *)
+Theorem C06_save_twice : forall (H compress : bytes -> bytes) s o,
+  apply_sop H compress (apply_sop H compress s o) o = apply_sop H compress s o.
+Proof. exact save_twice. Qed.
+Print Assumptions C06_save_twice.
+
+Theorem C06_save_keys_unique : forall (H compress : bytes -> bytes) s o,
+  NoDup (skeys s) -> NoDup (skeys (apply_sop H compress s o)).
+Proof. exact save_keys_nodup. Qed.
+Print Assumptions C06_save_keys_unique.
+
+(** Get after Save returns the object that was encoded (uses the round trips) *)
+Theorem C06_get_after_save_commit : forall (H : bytes -> bytes) s c b,
+  wf_commit c -> encode_commit c = Some b ->
+  get_commit (fst (save_commit H s b)) (snd (save_commit H s b)) = Some c.
+Proof. exact get_after_save_commit. Qed.
+Print Assumptions C06_get_after_save_commit.
+
+Theorem C06_get_after_save_table : forall (H : bytes -> bytes) s t b,
+  wf_table t -> encode_table t = Some b ->
+  get_table (fst (save_table H s b)) (snd (save_table H s b)) = Some t.
+Proof. exact get_after_save_table. Qed.
+Print Assumptions C06_get_after_save_table.
+
+Theorem C06_get_after_save_block : forall (H compress : bytes -> bytes) decompress,
+  (forall c, decompress (compress c) = Some c) -> forall s rows b,
+  wf_block rows -> encode_block rows = Some b ->
+  get_block decompress (fst (save_block H compress s b)) (snd (save_block H compress s b)) = Some rows.
+Proof. exact get_after_save_block. Qed.
+Print Assumptions C06_get_after_save_block.
+
+Theorem C06_get_after_save_blockindex : forall (H compress : bytes -> bytes) decompress,
+  (forall c, decompress (compress c) = Some c) -> forall s x b,
+  wf_blockindex x -> encode_blockindex x = Some b ->
+  get_blockindex decompress (fst (save_blockindex H compress s b))
+                 (snd (save_blockindex H compress s b)) = Some x.
+Proof. exact get_after_save_blockindex. Qed.
+Print Assumptions C06_get_after_save_blockindex.
+
+Theorem C06_get_after_save_tableindex : forall s sum rows b,
+  wf_block rows -> encode_block rows = Some b ->
+  get_tableindex (save_tableindex s sum b) sum = Some rows.
+Proof. exact get_after_save_tableindex. Qed.
+Print Assumptions C06_get_after_save_tableindex.
+
+Theorem C06_get_after_save_tableprofile : forall s sum p b,
+  wf_profile p -> encode_profile p = Some b ->
+  get_tableprofile (save_tableprofile s sum b) sum = Some p.
+Proof. exact get_after_save_tableprofile. Qed.
+Print Assumptions C06_get_after_save_tableprofile.
+
+(** a stored object never disagrees with its identifier: after ANY sequence of saves on
+    an empty store, keys are unique and every block / block index / table / commit entry
+    sits under the hash of its (decompressed) value *)
+Theorem C06_store_consistent : forall (H compress : bytes -> bytes) decompress,
+  (forall c, decompress (compress c) = Some c) -> forall ops,
+  store_ok H decompress (apply_sops H compress [] ops).
+Proof. exact store_ok_from_empty. Qed.
+Print Assumptions C06_store_consistent.
+
+(** the six key prefixes are pairwise not prefixes of one another (computed on the
+    literals), so FilterKey of one kind never returns a key of another kind *)
+Theorem C06_prefixes_disjoint : forall p q x,
+  In p prefixes -> In q prefixes -> p <> q -> is_prefix q (p ++ x) = false.
+Proof. exact prefixes_disjoint. Qed.
+Print Assumptions C06_prefixes_disjoint.
+
+(* ================================================================== *)
+(** non-vacuity: concrete non-trivial values meet the hypotheses *)
+Example C06_nonvacuous :
+  wf_strlist [[65; 66]; []; [255; 0]] /\ wf_block [[[65]; []]; []] /\ wf_uintlist [0; 4294967295] /\
+  wf_commit ex_commit /\ wf_table ex_table /\ wf_blockindex ex_blockindex /\ wf_profile ex_profile /\
+  wf_pktline [104; 105] /\ wf_packfile [(1, [1; 2; 3]); (3, [])] /\
+  wf_time zero_time /\ wf_time (9999999999%Z, 1499%Z).
+Proof. exact nonvacuous. Qed.
